@@ -1,5 +1,5 @@
 SPECIFICATION TraceSpec
 CONSTANTS Checks = {"kill", "yank"}
-          MaxRepeat = 99
+          MaxRepeat = 100000000
 POSTCONDITION Accepted
 CHECK_DEADLOCK FALSE
